@@ -3,6 +3,7 @@ package main
 import (
 	"encoding/json"
 	"fmt"
+	"math"
 	"math/rand"
 	"os"
 	"os/exec"
@@ -18,10 +19,16 @@ import (
 //   (a) programs that loop over / filter maps: each case is rendered 30× in-process on fresh engines,
 //       the context rebuilt every time with another insertion order of every map; all outputs must agree;
 //   (b) sampled cases are additionally rendered in 3 fresh child processes (different allocation noise);
-//   (d) values whose Go formatting exposes addresses (pointers, funcs, macro objects).
+//   (d) values whose Go formatting exposes addresses (pointers, funcs, macro objects) and the two other known
+//       findings (pointer keys with equal pointees; printing a map with several NaN keys): probed every run,
+//       reported once each under a stable key;
+//   (e) the regression corpora: the pinned tree's defects and the defects repaired after the first delivery of
+//       this slice (duplicate hash-literal keys: last wins; map[interface{}] keys 1 / "1" / int64(1) / 1.0 in
+//       for / first / keys / merge; composite keys that print alike; NaN keys) with their required outputs.
 // Correspondence with the Lean model (TwigModel.MapOrder):
-//   (a') for-loop / keys order over string-, int-, uint-keyed maps against `sortKeys` (driver op
-//        maporder_sort_keys);
+//   (a') for-loop / keys / first order over string-, int-, uint-, float- (with NaN keys), bool-, array-,
+//        struct- and interface{}-keyed maps (keys of different types that print alike) against `sortKeys`
+//        (driver op maporder_sort_keys; printed form, %T and %#v of each key computed here with fmt);
 //   (c) `{{ d|date(f) }}` for every format string of length ≤ 3 (quick: ≤ 2 + random longer ones) over the
 //       table's letters ∪ {\, x, -, space} against time.Format(model convertDateFormat(f)).
 
@@ -49,6 +56,9 @@ type c03Struct struct {
 	N    int
 	P    *int
 }
+
+// c03KeyS: a comparable struct used as a map key (two values can print alike: {"a b","c"} / {"a","b c"})
+type c03KeyS struct{ A, B string }
 
 var c03Time = time.Date(2024, 3, 5, 14, 7, 9, 0, time.UTC)
 
@@ -116,6 +126,21 @@ func c03Build(v c03Val, seed int64) any {
 			return func() int64 { return n }
 		case "chan":
 			return make(chan int)
+		case "nan":
+			if v.I != 0 {
+				return math.Float64frombits(0x7ff8000000000000 + uint64(v.I)) // another NaN payload
+			}
+			return math.NaN()
+		case "nan32":
+			return float32(math.NaN())
+		case "inf":
+			return math.Inf(int(v.I))
+		case "arr":
+			return [2]string{v.L[0].S, v.L[1].S}
+		case "kstruct":
+			return c03KeyS{A: v.L[0].S, B: v.L[1].S}
+		case "pkstruct":
+			return &c03KeyS{A: v.L[0].S, B: v.L[1].S}
 		}
 		order := c03Perm(len(v.K), seed, salt)
 		switch v.T {
@@ -174,7 +199,25 @@ func c03Build(v c03Val, seed int64) any {
 		case "mf":
 			m := map[float64]string{}
 			for _, i := range order {
-				m[v.K[i].F] = v.L[i].S
+				m[build(v.K[i]).(float64)] = v.L[i].S
+			}
+			return m
+		case "marr":
+			m := map[[2]string]string{}
+			for _, i := range order {
+				m[build(v.K[i]).([2]string)] = v.L[i].S
+			}
+			return m
+		case "mks":
+			m := map[c03KeyS]string{}
+			for _, i := range order {
+				m[build(v.K[i]).(c03KeyS)] = v.L[i].S
+			}
+			return m
+		case "mpk":
+			m := map[*c03KeyS]string{}
+			for _, i := range order {
+				m[build(v.K[i]).(*c03KeyS)] = v.L[i].S
 			}
 			return m
 		case "mii":
@@ -197,6 +240,11 @@ type c03Case struct {
 	// model comparison (optional): the expected output is the concatenation over the keys of map
 	// variable Var in model order of Pre+key+Mid+value+Post
 	Expect string `json:"expect,omitempty"` // expected output if known statically
+	// SameErr: the error text must be the same on every render too (hash literals are evaluated in source
+	// order, so the first failing item decides)
+	SameErr bool `json:"same_err,omitempty"`
+	// ExpectErr: substring the (stable) error text must contain
+	ExpectErr string `json:"expect_err,omitempty"`
 }
 
 func c03Ctx(c *c03Case, seed int64) map[string]any {
@@ -284,14 +332,13 @@ func c03RunChild(e *Env, c *c03Case, seed int64, noise int) (c03Out, error) {
 	return o, nil
 }
 
+// Known finding classes (recorded in /verif/known_findings.json under exactly these keys); every other
+// difference is reported as a new violation.
 var c03FindingKeys = map[string]string{
-	"hashdup":       "hash-literal-duplicate-key",
-	"ifacekeys":     "iface-key-print-collision",
-	"mergefn":       "merge-key-collision",
-	"macro-object":  "prints-macro-object-address",
-	"address":       "prints-address",
-	"":              "nondeterministic-output",
-	"pinned-defect": "nondeterministic-output",
+	"ptrkey":       "pointer-key-equal-content",
+	"nanprint":     "prints-map-with-several-nan-keys",
+	"macro-object": "prints-macro-object-address",
+	"address":      "prints-address",
 }
 
 func c03Key(tag string) string {
@@ -301,19 +348,18 @@ func c03Key(tag string) string {
 	return "nondeterministic-output"
 }
 
-// c03What: one violation per finding class (Report.Violate de-duplicates on Key+What), so that the
-// recorded findings cannot use up the violation budget; unclassified differences name the case.
+// c03What: one violation per finding class (Report.Violate de-duplicates on Key+What), so that each
+// recorded finding is reported exactly once per run; unclassified differences name the case.
 func c03What(tag, how, name string) string {
 	key := c03Key(tag)
 	if key == "nondeterministic-output" {
 		return fmt.Sprintf("%s (%s)", how, name)
 	}
 	return key + ": " + map[string]string{
-		"hash-literal-duplicate-key":  "a hash literal in which two keys evaluate to the same string keeps a random one of the values",
-		"iface-key-print-collision":   "a map whose key type is not int/uint/float/string and in which two keys print alike is visited in random order",
-		"merge-key-collision":         "merge() of a non-map[string]interface{} map in which two keys print alike keeps a random one of the values",
-		"prints-macro-object-address": "printing an imported macro library / macro object prints Go pointers",
-		"prints-address":              "printing a pointer, func, chan or a struct holding a pointer prints its address",
+		"pointer-key-equal-content":        "a map with two pointer keys whose pointees are equal (fmt.Sprint, %T and %#v of the keys agree) is visited in random order",
+		"prints-map-with-several-nan-keys": "printing a map that holds several NaN keys with different values (fmt leaves NaN keys in map-iteration order) gives a random order",
+		"prints-macro-object-address":      "printing an imported macro library / macro object prints Go pointers",
+		"prints-address":                   "printing a pointer, func, chan or a struct holding a pointer prints its address",
 	}[key]
 }
 
@@ -336,6 +382,13 @@ func c03Check(e *Env, c *c03Case, reps, procs int) (c03Out, bool, error) {
 		}
 		if got.Err != ref.Err {
 			errTextVaries = true
+			if c.SameErr {
+				r.Violate(Violation{Key: "nondeterministic-error",
+					What:   fmt.Sprintf("two in-process renders fail with different errors (%s)", c.Name),
+					Broken: "C03_hash_literal_last_wins / evalHashLiteral (items are evaluated in source order, the first failing item decides)",
+					Replay: map[string]any{"kind": "repeat", "case": c, "seed_a": 0, "seed_b": i, "err_a": ref.Err, "err_b": got.Err}})
+				return ref, false, nil
+			}
 		}
 	}
 	if errTextVaries {
@@ -357,10 +410,17 @@ func c03Check(e *Env, c *c03Case, reps, procs int) (c03Out, bool, error) {
 			return ref, false, nil
 		}
 	}
+	if c.ExpectErr != "" && !strings.Contains(ref.Err, c.ExpectErr) {
+		r.Violate(Violation{Key: "hash-literal-error-not-first-in-source-order",
+			What:   fmt.Sprintf("%s fails with %q, expected an error containing %q", c.Name, truncate(ref.Err, 120), c.ExpectErr),
+			Broken: "correspondence: evalHashLiteral reports the first failing item in source order",
+			Replay: map[string]any{"kind": "expect", "case": c, "out": ref.Out, "class": ref.Class, "err": ref.Err, "expected_err": c.ExpectErr}})
+		return ref, false, nil
+	}
 	if c.Expect != "" && (ref.Out != c.Expect || ref.Class != "") {
 		r.Violate(Violation{Key: "map-order-not-by-key",
 			What:   fmt.Sprintf("%s renders %q, expected %q", c.Name, truncate(ref.Out, 80), truncate(c.Expect, 80)),
-			Broken: "correspondence: for-loop/filter order over a map vs MapOrder.sortKeys / minKey",
+			Broken: "correspondence: for-loop/filter/merge order over a map vs MapOrder.sortKeys / minKey; hash literal vs evalHashLiteral (last duplicate wins)",
 			Replay: map[string]any{"kind": "expect", "case": c, "out": ref.Out, "class": ref.Class, "err": ref.Err, "expected": c.Expect}})
 		return ref, false, nil
 	}
@@ -441,9 +501,36 @@ func c03GenMap(r *rand.Rand, shape string, n int, depth int) c03Val {
 			v.K = append(v.K, c03Val{T: "float", F: float64(k)*1.5 - 3})
 			v.L = append(v.L, c03S(pick(r, []string{"x", "y", "zz"})))
 		}
+		// at most ONE NaN key (several NaN keys make fmt's own map printing random: known finding
+		// prints-map-with-several-nan-keys, probed separately), sometimes an infinity
+		if r.Intn(3) == 0 {
+			v.K = append(v.K, c03Val{T: "nan"})
+			v.L = append(v.L, c03S("n"))
+		}
+		if r.Intn(4) == 0 {
+			v.K = append(v.K, c03Val{T: "inf", I: int64(1 - 2*r.Intn(2))})
+			v.L = append(v.L, c03S("i"))
+		}
+	case "marr", "mks":
+		if n > len(c03PairKeys) {
+			n = len(c03PairKeys)
+		}
+		for _, j := range r.Perm(len(c03PairKeys))[:n] {
+			v.K = append(v.K, c03Pair(map[string]string{"marr": "arr", "mks": "kstruct"}[shape], c03PairKeys[j][0], c03PairKeys[j][1]))
+			v.L = append(v.L, c03S(pick(r, []string{"x", "y", "zz", "w"})))
+		}
 	case "mii":
-		// interface{}-keyed, but all keys of one dynamic type and distinct printed forms
-		if r.Intn(2) == 0 {
+		// interface{}-keyed: all keys of one dynamic type, or keys of different types (and composite keys of
+		// one type) whose printed forms coincide
+		if r.Intn(3) == 0 {
+			if n > len(c03MixedKeys) {
+				n = len(c03MixedKeys)
+			}
+			for _, j := range r.Perm(len(c03MixedKeys))[:n] {
+				v.K = append(v.K, c03MixedKeys[j])
+				v.L = append(v.L, c03Scalar(r))
+			}
+		} else if r.Intn(2) == 0 {
 			for _, k := range c03PickStrKeys(r, n) {
 				v.K = append(v.K, c03S(k))
 				v.L = append(v.L, c03Scalar(r))
@@ -458,7 +545,16 @@ func c03GenMap(r *rand.Rand, shape string, n int, depth int) c03Val {
 	return v
 }
 
-var c03Shapes = []string{"map", "map", "map", "msi", "mss", "msl", "mis", "mi64", "mu8", "mb", "mf", "mii"}
+var c03Shapes = []string{"map", "map", "map", "msi", "mss", "msl", "mis", "mi64", "mu8", "mb", "mf", "mii", "mii", "marr", "mks"}
+
+// keys of different types / composite keys of one type whose printed forms coincide
+var c03MixedKeys = []c03Val{
+	c03I(1), c03S("1"), {T: "i64", I: 1}, {T: "float", F: 1}, c03I(2), c03S("2"), {T: "bool", B: true}, c03S("true"),
+	{T: "bool", B: false}, c03S("false"), c03S(""), c03S("a b"), c03I(10), {T: "float", F: 2.5}, c03S("2.5"), {T: "nan"}, c03S("NaN"),
+	c03Pair("arr", "a", "b c"), c03Pair("arr", "a b", "c"), c03Pair("kstruct", "a", "b c"), c03Pair("kstruct", "a b", "c"), c03Pair("kstruct", "", ""),
+}
+
+var c03PairKeys = [][2]string{{"a", "b c"}, {"a b", "c"}, {"a", "b"}, {"", "a b c"}, {"a b c", ""}, {"x", "y"}, {"", ""}, {"a b", "c d"}, {"a", "b c d"}}
 
 // template fragments over the map variable `m` (and a second map `m2`)
 var c03Forms = []string{
@@ -529,6 +625,11 @@ var c03HashForms = []string{
 	"{% for k, v in {'b': 1, 'a': 2}|merge({'d': 3, 'c': 4}) %}{{ k }}={{ v }};{% endfor %}",
 	"{% for k, v in {3: 'c', 1: 'a', 2: 'b', 10: 'j'} %}{{ k }}={{ v }};{% endfor %}",
 	"{% include 'inc' with {'p': 1, 'q': {'n': 1, 'm': 2}, 'r': 'x', 's': [1], 't': {}} %}",
+	// duplicate / coinciding keys: source order, the last one wins
+	"{% set h = {'a': 1, 'b': 2, 'a': 3, 'c': 4, 'b': 5} %}{% for k, v in h %}{{ k }}={{ v }};{% endfor %}",
+	"{% set h = {(x): 1, 'a': 2, (x): 3, 'q': 4, 'zz': 5} %}{{ h|json_encode }}{{ h[x] }}",
+	"{% for k, v in {1: 'a', '1': 'b', 2: 'c', '2': 'd', 1: 'e'} %}{{ k }}={{ v }};{% endfor %}",
+	"{{ {'k': x, 'k': x ~ x, 'k': 7}|join(',') }}{{ {'b': 1, 'a': 2, 'b': 3}|first }}{{ {'b': 1, 'a': 2, 'b': 3}|keys|join }}",
 }
 
 func c03FixedCorpus() []c03Case {
@@ -544,22 +645,96 @@ func c03FixedCorpus() []c03Case {
 		{Name: "pinned: keys of a typed map", Tag: "pinned-defect", Tpls: map[string]string{"main": "{{ m|keys|join(',') }}"}, Ctx: map[string]c03Val{"m": msi}, Expect: "a,b,c,d"},
 		{Name: "pinned: keys of an int-keyed map are in numeric order", Tag: "pinned-defect", Tpls: map[string]string{"main": "{{ m|keys|join(',') }}"}, Ctx: map[string]c03Val{"m": mis}, Expect: "-1,2,9,10"},
 		{Name: "pinned: date format D, d M Y", Tag: "pinned-defect", Tpls: map[string]string{"main": "{{ d|date('D, d M Y') }}"}, Ctx: map[string]c03Val{"d": {T: "time"}}, Expect: "Tue, 05 Mar 2024"},
-		{Name: "pinned: date format l jS F", Tag: "pinned-defect", Tpls: map[string]string{"main": "{{ d|date(f) }}"}, Ctx: map[string]c03Val{"d": {T: "time"}, "f": c03S("l j F y, H:i:s A")}, Expect: "Tuesday 5 March 24, 14:07:09 PM"},
+		{Name: "pinned: date format l j F", Tag: "pinned-defect", Tpls: map[string]string{"main": "{{ d|date(f) }}"}, Ctx: map[string]c03Val{"d": {T: "time"}, "f": c03S("l j F y, H:i:s A")}, Expect: "Tuesday 5 March 24, 14:07:09 PM"},
 	}
 }
 
-// findings of the fixed tree found while building this slice: each is probed on every run and reported
-// under a stable key if it still reproduces
-func c03FindingProbes() []c03Case {
+func c03KV(t string, keys []c03Val, vals ...string) c03Val {
+	v := c03Val{T: t, K: keys}
+	for _, x := range vals {
+		v.L = append(v.L, c03S(x))
+	}
+	return v
+}
+
+func c03Pair(t, a, b string) c03Val { return c03Val{T: t, L: []c03Val{c03S(a), c03S(b)}} }
+
+// c03RepairedCorpus: the defects of the fixed tree reported with the first delivery of this slice and
+// repaired since (4cfb654, 2cbbaa1, 43314f9, 5b1997c, c0e7993).  Determinism AND the stated result are
+// required; none of them is a known finding any more.
+func c03RepairedCorpus() []c03Case {
+	one := func(name, tpl, expect string, ctx map[string]c03Val) c03Case {
+		return c03Case{Name: "repaired: " + name, Tpls: map[string]string{"main": tpl}, Ctx: ctx, Expect: expect}
+	}
+	// 1, "1", int64(1), 1.0 all print "1"; type names float64 < int < int64 < string
 	coll := c03Val{T: "mii", K: []c03Val{c03I(1), c03S("1"), {T: "i64", I: 1}, {T: "float", F: 1}}, L: []c03Val{c03S("a"), c03S("b"), c03S("c"), c03S("d")}}
+	coll2 := c03Val{T: "mii", K: []c03Val{c03S("1"), c03I(2), {T: "bool", B: true}, c03S("true")}, L: []c03Val{c03S("z"), c03S("y"), c03S("t"), c03S("u")}}
+	// composite keys of one type that print alike: %#v decides ("a b" before "a")? Go syntax: [2]string{"a b", "c"} vs [2]string{"a", "b c"}:
+	// the strings differ first at `"a b` vs `"a"`: ' ' (0x20) < '"' (0x22), so {"a b","c"} comes first
+	arrK := []c03Val{c03Pair("arr", "a", "b c"), c03Pair("arr", "a b", "c")}
+	ksK := []c03Val{c03Pair("kstruct", "a", "b c"), c03Pair("kstruct", "a b", "c")}
+	marr := c03KV("marr", arrK, "y", "x")
+	mks := c03KV("mks", ksK, "y", "x")
+	miiks := c03KV("mii", append(append([]c03Val{}, ksK...), arrK[1]), "y", "x", "z")
+	// NaN keys: first in key order, printed NaN, value nil; unreachable for merge
+	nanK := []c03Val{{T: "float", F: 1}, {T: "nan"}, {T: "float", F: 2}, {T: "float", F: 0}, {T: "nan", I: 1}, {T: "inf", I: -1}}
+	mnan := c03KV("mf", nanK, "z", "x", "w", "q", "y", "i")
+	inan := c03KV("mii", []c03Val{{T: "nan"}, {T: "nan", I: 1}, {T: "nan32"}, c03S("NaN"), c03I(1)}, "x", "y", "f", "s", "z")
+	loop := "{% for k, v in m %}{{ k }}={{ v }};{% endfor %}"
+	cs := []c03Case{
+		// hash literals: source order, the last duplicate wins (4cfb654)
+		one("hash literal with a duplicate key", "{% set h = {'a': 1, 'a': 2} %}{{ h.a }}", "2", nil),
+		one("hash literal with a duplicate key, three items", "{% for k, v in {'b': 1, 'a': 2, 'b': 3} %}{{ k }}={{ v }};{% endfor %}", "a=2;b=3;", nil),
+		one("hash literal whose computed keys coincide", "{% set h = {(x): 1, (y): 2, (z): 3} %}{{ h.k }}", "3",
+			map[string]c03Val{"x": c03S("k"), "y": c03S("k"), "z": c03S("k")}),
+		one("hash literal with keys 1 and '1'", "{% set h = {1: 'a', '1': 'b'} %}{{ h['1'] }}|{{ h|length }}", "b|1", nil),
+		one("hash literal with keys '1' and 1", "{% set h = {'1': 'b', 1: 'a'} %}{{ h['1'] }}", "a", nil),
+		one("hash literal, duplicate key inside include-with", "{% include 'inc3' with {'p': 1, 'q': 2, 'p': 3} only %}", "3/2", nil),
+		// map[interface{}]… whose keys print alike (2cbbaa1)
+		one("for over map[interface{}] whose keys print alike", loop, "1=d;1=a;1=c;1=b;", map[string]c03Val{"m": coll}),
+		one("first of map[interface{}] whose keys print alike", "{{ m|first }}", "d", map[string]c03Val{"m": coll}),
+		one("keys of map[interface{}] whose keys print alike", "{{ m|keys|join(',') }}|{{ m|keys|length }}|{{ m|length }}", "1,1,1,1|4|4", map[string]c03Val{"m": coll}),
+		one("values of map[interface{}] whose keys print alike, by loop index", "{% for v in m %}{{ loop.index }}{{ v }}{% endfor %}", "1d2a3c4b", map[string]c03Val{"m": coll}),
+		one("for over map[interface{}] with true and 'true'", loop, "1=z;2=y;true=t;true=u;", map[string]c03Val{"m": coll2}),
+		// merge() over such maps visits them in key order (43314f9)
+		one("merge() of map[interface{}] whose keys print alike", "{% set r = merge(m, {}) %}{{ r['1'] }}|{{ r|length }}", "b|1", map[string]c03Val{"m": coll}),
+		one("merge() of two such maps", "{% set r = merge(m, m2) %}{% for k, v in r %}{{ k }}={{ v }};{% endfor %}", "1=z;2=y;true=u;", map[string]c03Val{"m": coll, "m2": coll2}),
+		one("merge() of two such maps, other way round", "{% set r = merge(m2, m) %}{% for k, v in r %}{{ k }}={{ v }};{% endfor %}", "1=b;2=y;true=u;", map[string]c03Val{"m": coll, "m2": coll2}),
+		one("merge filter of two such maps", "{% for k, v in m|merge(m2) %}{{ k }}={{ v }};{% endfor %}", "1=d;1=a;1=c;1=z;2=y;true=t;true=u;", map[string]c03Val{"m": coll, "m2": coll2}),
+		// composite keys of one type that print alike (5b1997c)
+		one("for/first/keys over map[[2]string] whose keys print alike", loop+"|{{ m|first }}|{{ m|keys|join(',') }}", "[a b c]=x;[a b c]=y;|x|[a b c],[a b c]", map[string]c03Val{"m": marr}),
+		one("for/first over map[struct] whose keys print alike", loop+"|{{ m|first }}", "{a b c}=x;{a b c}=y;|x", map[string]c03Val{"m": mks}),
+		one("for over map[interface{}] with struct and array keys that print alike", loop+"|{{ m|first }}", "[a b c]=z;{a b c}=x;{a b c}=y;|z", map[string]c03Val{"m": miiks}),
+		one("merge() of map[[2]string] whose keys print alike", "{% set r = merge(m, {}) %}{% for k, v in r %}{{ k }}={{ v }};{% endfor %}", "[a b c]=y;", map[string]c03Val{"m": marr}),
+		// NaN keys (c0e7993): first, no panic, value nil, skipped by merge()
+		one("for/first/keys over a float-keyed map with two NaN keys", loop+"|{{ m|first }}|{{ m|keys|join(',') }}", "NaN=;NaN=;-Inf=i;0=q;1=z;2=w;||NaN,NaN,-Inf,0,1,2", map[string]c03Val{"m": mnan}),
+		one("merge() and merge filter of a float-keyed map with two NaN keys", "{% set r = merge(m, {}) %}{% for k, v in r %}{{ k }}={{ v }};{% endfor %}|{{ m|merge({})|length }}|{{ m|length }}", "-Inf=i;0=q;1=z;2=w;|4|6", map[string]c03Val{"m": mnan}),
+		one("for/first/merge over map[interface{}] with NaN keys", loop+"|{{ m|first }}|{% set r = merge(m, {}) %}{% for k, v in r %}{{ k }}={{ v }};{% endfor %}", "1=z;NaN=;NaN=;NaN=;NaN=s;|z|1=z;NaN=s;", map[string]c03Val{"m": inan}),
+	}
+	for i := range cs {
+		cs[i].Tpls["inc3"] = "{{ p }}/{{ q }}"
+	}
+	// failing items: the first one in source order decides the error, every time
+	cs = append(cs,
+		c03Case{Name: "repaired: hash literal with two failing items", Tpls: map[string]string{"main": "{% set h = {'a': nosuchfn(1), 'b': 1 / 0} %}x"}, SameErr: true, ExpectErr: "nosuchfn"},
+		c03Case{Name: "repaired: hash literal with two failing items, other order", Tpls: map[string]string{"main": "{% set h = {'b': 1 / 0, 'a': nosuchfn(1)} %}x"}, SameErr: true, ExpectErr: "zero"},
+		c03Case{Name: "repaired: hash literal with many failing items", Tpls: map[string]string{"main": "{% set h = {'a': 1, 'b': f1(), 'c': f2(), 'd': f3(), 'e': f4(), 'f': f5()} %}x"}, SameErr: true, ExpectErr: "f1"},
+	)
+	return cs
+}
+
+// known findings of the fixed tree that are not address printing: each is probed on every run and reported
+// under its stable key if it still reproduces
+func c03FindingProbes() []c03Case {
+	pk := []c03Val{c03Pair("pkstruct", "a", "b"), c03Pair("pkstruct", "a", "b")}
+	twoNaN := c03KV("mf", []c03Val{{T: "nan"}, {T: "float", F: 1}, {T: "nan", I: 1}}, "x", "z", "y")
 	return []c03Case{
-		{Name: "hash literal with a duplicate key", Tag: "hashdup", Tpls: map[string]string{"main": "{% set h = {'a': 1, 'a': 2} %}{{ h.a }}"}},
-		{Name: "hash literal whose computed keys coincide", Tag: "hashdup", Tpls: map[string]string{"main": "{% set h = {(x): 1, (y): 2, (z): 3} %}{{ h.k }}"},
-			Ctx: map[string]c03Val{"x": c03S("k"), "y": c03S("k"), "z": c03S("k")}},
-		{Name: "hash literal with keys 1 and '1'", Tag: "hashdup", Tpls: map[string]string{"main": "{% set h = {1: 'a', '1': 'b'} %}{{ h['1'] }}"}},
-		{Name: "for over map[interface{}] whose keys print alike", Tag: "ifacekeys", Tpls: map[string]string{"main": "{% for k, v in m %}{{ v }}{% endfor %}"}, Ctx: map[string]c03Val{"m": coll}},
-		{Name: "first of map[interface{}] whose keys print alike", Tag: "ifacekeys", Tpls: map[string]string{"main": "{{ m|first }}"}, Ctx: map[string]c03Val{"m": coll}},
-		{Name: "merge() of map[interface{}] whose keys print alike", Tag: "mergefn", Tpls: map[string]string{"main": "{% set r = merge(m, {}) %}{{ r['1'] }}"}, Ctx: map[string]c03Val{"m": coll}},
+		{Name: "for/first over map[*struct] with two pointers to equal structs", Tag: "ptrkey", Tpls: map[string]string{"main": "{% for k, v in m %}{{ v }}{% endfor %}|{{ m|first }}"},
+			Ctx: map[string]c03Val{"m": c03KV("mpk", pk, "x", "y")}},
+		{Name: "for over map[interface{}] with two pointers to equal structs", Tag: "ptrkey", Tpls: map[string]string{"main": "{% for k, v in m %}{{ v }}{% endfor %}"},
+			Ctx: map[string]c03Val{"m": c03KV("mii", pk, "x", "y")}},
+		{Name: "print a float-keyed map with two NaN keys", Tag: "nanprint", Tpls: map[string]string{"main": "{{ m }}"}, Ctx: map[string]c03Val{"m": twoNaN}},
+		{Name: "join / dump a float-keyed map with two NaN keys", Tag: "nanprint", Tpls: map[string]string{"main": "{{ m|join(',') }}{{ dump(m) }}"}, Ctx: map[string]c03Val{"m": twoNaN}},
 	}
 }
 
@@ -621,41 +796,7 @@ func c03GenCase(r *rand.Rand, i int) c03Case {
 		c.Name = fmt.Sprintf("map program %d (%s, %d entries)", i, shape, size)
 	}
 	c.Tpls["main"] = sb.String()
-	if c03IfaceCollision(c.Ctx) {
-		c.Tag = "ifacekeys" // a known finding class: two keys of interface{}-keyed maps print alike
-	}
 	return c
-}
-
-// c03IfaceCollision: some interface{}-keyed map is present and two distinct keys among all maps of the
-// context print alike (the maps may be merged by the program).
-func c03IfaceCollision(ctx map[string]c03Val) bool {
-	hasIface := false
-	seen := map[string]string{}
-	coll := false
-	for _, v := range ctx {
-		if v.T == "mii" {
-			hasIface = true
-		}
-		for _, k := range v.K {
-			var p, id string
-			switch k.T {
-			case "str":
-				p, id = k.S, "s:"+k.S
-			case "int", "i64":
-				p, id = fmt.Sprint(k.I), "i:"+fmt.Sprint(k.I)
-			case "bool":
-				p, id = fmt.Sprint(k.B), "b:"+fmt.Sprint(k.B)
-			case "float":
-				p, id = fmt.Sprint(k.F), "f:"+fmt.Sprint(k.F)
-			}
-			if old, ok := seen[p]; ok && old != id {
-				coll = true
-			}
-			seen[p] = id
-		}
-	}
-	return hasIface && coll
 }
 
 // ---- model correspondence: key order ----------------------------------------------------------------
@@ -664,27 +805,33 @@ func c03ModelOrder(e *Env) error {
 	r := e.Rep
 	n := e.N(150, 3000)
 	for i := 0; i < n && !r.Full(); i++ {
-		shape := pick(e.Rng, []string{"map", "msi", "mss", "mis", "mi64", "mu8", "mii-str", "mii-int", "mb"})
+		shape := pick(e.Rng, []string{"map", "msi", "mss", "mis", "mi64", "mu8", "mii-str", "mii-int", "mii-mixed", "mii-mixed", "mb", "mf", "marr", "mks"})
 		size := 2 + e.Rng.Intn(8)
 		var m c03Val
 		cls := ""
 		switch shape {
-		case "mii-str", "mii-int", "mb":
+		case "mii-str", "mii-int", "mii-mixed", "mb", "marr", "mks":
 			cls = "other"
-			if shape == "mb" {
-				m = c03GenMap(e.Rng, "mb", 2, 0)
-			} else {
+			switch shape {
+			case "mb", "marr", "mks":
+				m = c03GenMap(e.Rng, shape, size, 0)
+			case "mii-str":
 				m = c03Val{T: "mii"}
-				if shape == "mii-str" {
-					for _, k := range c03PickStrKeys(e.Rng, size) {
-						m.K = append(m.K, c03S(k))
-						m.L = append(m.L, c03I(int64(e.Rng.Intn(9))))
-					}
-				} else {
-					for _, k := range e.Rng.Perm(30)[:size] {
-						m.K = append(m.K, c03I(int64(k-5)))
-						m.L = append(m.L, c03I(int64(e.Rng.Intn(9))))
-					}
+				for _, k := range c03PickStrKeys(e.Rng, size) {
+					m.K = append(m.K, c03S(k))
+					m.L = append(m.L, c03I(int64(e.Rng.Intn(9))))
+				}
+			case "mii-int":
+				m = c03Val{T: "mii"}
+				for _, k := range e.Rng.Perm(30)[:size] {
+					m.K = append(m.K, c03I(int64(k-5)))
+					m.L = append(m.L, c03I(int64(e.Rng.Intn(9))))
+				}
+			default:
+				m = c03Val{T: "mii"}
+				for _, j := range e.Rng.Perm(len(c03MixedKeys))[:size+2] {
+					m.K = append(m.K, c03MixedKeys[j])
+					m.L = append(m.L, c03I(int64(e.Rng.Intn(9))))
 				}
 			}
 		case "map", "msi", "mss":
@@ -696,34 +843,61 @@ func c03ModelOrder(e *Env) error {
 		case "mu8":
 			cls = "uint"
 			m = c03GenMap(e.Rng, shape, size, 0)
-		}
-		// keys for the model; printed form as Go prints them
-		var keys []any
-		printed := map[string]string{} // canonical key json -> printed
-		vals := map[string]c03Val{}
-		for j, k := range m.K {
-			var mk any
-			var p string
-			switch k.T {
-			case "str":
-				p = k.S
-			case "int":
-				p = fmt.Sprint(k.I)
-			case "bool":
-				p = fmt.Sprint(k.B)
+		case "mf":
+			cls = "float"
+			m = c03GenMap(e.Rng, shape, size, 0)
+			if e.Rng.Intn(3) == 0 { // several NaN keys: for / keys / first must not depend on their order
+				m.K = append(m.K, c03Val{T: "nan", I: 1}, c03Val{T: "nan", I: 2})
+				m.L = append(m.L, c03S("n1"), c03S("n2"))
 			}
+		}
+		// keys for the model; printed form, type name and Go-syntax form as Go's fmt gives them
+		var keys []any
+		printed := map[string]string{} // canonical json of the key as the model returns it -> printed
+		vals := map[string]c03Val{}
+		// float keys go to the model as their position in the order of the non-NaN keys
+		var floats []float64
+		for _, k := range m.K {
+			if cls == "float" {
+				if f := c03Build(k, 0).(float64); f == f {
+					floats = append(floats, f)
+				}
+			}
+		}
+		sort.Float64s(floats)
+		for j, k := range m.K {
+			var mk, back any
+			gv := c03Build(k, 0)
+			p := fmt.Sprint(gv)
+			val := m.L[j]
 			switch cls {
 			case "str":
 				mk = hx(k.S)
 			case "int", "uint":
 				mk = k.I
+			case "float":
+				f := gv.(float64)
+				if f != f {
+					mk = nil
+					val = c03Val{T: "nil"} // MapIndex finds nothing for a NaN key
+				} else {
+					mk = int64(sort.SearchFloat64s(floats, f))
+				}
 			case "other":
-				mk = []any{j, hx(p)}
+				selfEq := gv == gv
+				mk = []any{j, selfEq, hx(p), hx(fmt.Sprintf("%T", gv)), hx(fmt.Sprintf("%#v", gv))}
+				if !selfEq {
+					back = []any{0, false, hx(p), hx(fmt.Sprintf("%T", gv)), hx(fmt.Sprintf("%#v", gv))} // what the model returns: GoKey.obs
+					val = c03Val{T: "nil"}
+				}
+			}
+			if back == nil {
+				back = mk
 			}
 			keys = append(keys, mk)
-			cj, _ := json.Marshal(mk)
+			cj, _ := json.Marshal(back)
 			printed[string(cj)] = p
-			vals[string(cj)] = m.L[j]
+			vals[string(cj)] = val
 		}
 		resp, err := e.Model.Call(map[string]any{"op": "maporder_sort_keys", "cls": cls, "keys": keys})
 		if err != nil {
@@ -731,7 +905,9 @@ func c03ModelOrder(e *Env) error {
 		}
 		r.Compared++
 		if det, _ := resp["determined"].(bool); !det {
-			r.Skip("model: key order not determined (print collision)")
+			// with the generated key kinds (no pointer keys) the model must always determine the order
+			r.Violate(Violation{Key: "model-order-undetermined", What: "the model's comparator leaves generated keys tied that are observably different",
+				Broken: "C03_sorted_keys_total_order(_partial): KeysDetermined fails for a generated key set", Replay: map[string]any{"kind": "model-order", "cls": cls, "keys": keys}})
 			continue
 		}
 		sorted, _ := resp["sorted"].([]any)
@@ -956,10 +1132,13 @@ func runC03(e *Env) error {
 	if e.Replay != "" {
 		return c03Replay(e)
 	}
-	r.Rule = "(a) random programs over maps (12 Go map types, 3–16 entries, 34 loop/filter forms + 6 failing ones, hash literals, include-with, macros): " +
+	r.Rule = "(e) regression corpora with required outputs (8 pinned defects 30×, 25 repaired defects 200×, 1 child process each); " +
+		"(a) random programs over maps (12 Go map types incl. float keys with a NaN, array/struct keys and interface{} keys of mixed types that print alike, " +
+		"3–16 entries, 34 loop/filter forms + 6 failing ones, 17 hash-literal forms incl. duplicate keys, include-with, macros): " +
 		"30 in-process renders on fresh engines with a fresh insertion order each, sampled cases also in 3 child processes; " +
-		"(a') loop/keys/first order vs Lean sortKeys; (c) date(f) vs time.Format(model layout) exhaustively to length 2 (thorough 3) + random; " +
-		"(d) values that print addresses. non-trivial = a map with ≥ 2 entries is visited and the output is non-empty (a), ≥ 2 table letters (c); distinct by case"
+		"(a') loop/keys/first order vs Lean sortKeys (incl. several NaN keys, mixed-type and composite keys); (c) date(f) vs time.Format(model layout) exhaustively to length 2 (thorough 3) + random; " +
+		"(d) the four known findings (address printing ×2, pointer keys with equal pointees, printing a map with several NaN keys), once each. " +
+		"non-trivial = a map with ≥ 2 entries is visited and the output is non-empty (a), ≥ 2 table letters (c); distinct by case"
 	if e.Model == nil {
 		return fmt.Errorf("C03 needs the model driver (-model)")
 	}
@@ -974,10 +1153,19 @@ func runC03(e *Env) error {
 		r.Seen("corpus:"+string(cj), true)
 		r.Hit("corpus")
 	}
+	for _, c := range c03RepairedCorpus() {
+		c := c
+		if _, _, err := c03Check(e, &c, 200, 1); err != nil {
+			return err
+		}
+		cj, _ := json.Marshal(c)
+		r.Seen("repaired:"+string(cj), true)
+		r.Hit("repaired-corpus")
+	}
 	// recorded findings: probed every run
 	for _, c := range c03FindingProbes() {
 		c := c
-		if _, _, err := c03Check(e, &c, 60, 0); err != nil {
+		if _, _, err := c03Check(e, &c, 200, 0); err != nil {
 			return err
 		}
 		cj, _ := json.Marshal(c)
